@@ -1,4 +1,5 @@
 """Define public decorators."""
+import functools
 import inspect
 import reprlib
 import traceback
@@ -445,16 +446,21 @@ class invariant:  # pylint: disable=invalid-name
 
         # A condition is asynchronous not only if it is a coroutine function itself: a callable object with
         # ``async def __call__`` gives a coroutine as well, and an asynchronous generator function gives
-        # an (always truthy) asynchronous generator.
+        # an (always truthy) asynchronous generator. Binding some of the arguments with ``functools.partial``
+        # changes nothing about that.
+        invoked = condition  # type: Any
+        while isinstance(invoked, functools.partial):
+            invoked = invoked.func
+
         if (
-            inspect.iscoroutinefunction(condition)
-            or inspect.isasyncgenfunction(condition)
+            inspect.iscoroutinefunction(invoked)
+            or inspect.isasyncgenfunction(invoked)
             or (
-                not inspect.isfunction(condition)
-                and not inspect.ismethod(condition)
+                not inspect.isfunction(invoked)
+                and not inspect.ismethod(invoked)
                 and (
-                    inspect.iscoroutinefunction(getattr(condition, "__call__", None))
-                    or inspect.isasyncgenfunction(getattr(condition, "__call__", None))
+                    inspect.iscoroutinefunction(getattr(invoked, "__call__", None))
+                    or inspect.isasyncgenfunction(getattr(invoked, "__call__", None))
                 )
             )
         ):
